@@ -188,6 +188,10 @@ func judgeC17Raw(c c11Case) (string, string) {
 		return "walk-failed", err.Error()
 	}
 	listed = rerootLinks(listed)
+	// (an unfiltered view is the tree: an export that is consistent with an incomplete walk is not a round trip)
+	if len(c.Include)+len(c.Exclude)+len(c.Follow) == 0 && (c.Under == "disk" || c.Under == "mem") && len(listed) != len(c.Tree) {
+		return "view-incomplete", fmt.Sprintf("the unfiltered view reports %d entries, the tree has %d", len(listed), len(c.Tree))
+	}
 	if c.Under == "maprewrite" {
 		for _, st := range listed {
 			if st.Uid != 4242 || st.Gid != 4243 || st.ModTime != 1_000_000_000_000_000_000 {
